@@ -6,6 +6,7 @@ import (
 	"go/types"
 	"os"
 	"regexp/syntax"
+	"sort"
 	"strings"
 	"time"
 
@@ -831,6 +832,149 @@ func c16(r *core.Report) {
 			}
 		}
 	}
+	// ---- C16-NORMAL-FORM: parse(marshal(a)) == a needs more than acceptance: if the parser (or the
+	// marshaller) passes a field through a value-changing normalisation N (netip.Addr.Unmap, WithZone,
+	// strings.ToLower, ...), every other producer of that field must apply N too, or the swarm hands out
+	// addresses that come back different.
+	r.Rule("C16-NORMAL-FORM", "a normalisation applied to an address field by its parser or marshaller is applied by every producer of that field", 6)
+	for _, t := range typesTab {
+		n := p.Named(t.rel, "Addr")
+		pf, mf := p.Func(t.rel, t.parse), p.Func(t.rel, t.marshal)
+		if n == nil || pf == nil || mf == nil {
+			r.Fail("C16-NORMAL-FORM: unresolved anchors for %s", t.name)
+			continue
+		}
+		st, _ := n.Underlying().(*types.Struct)
+		if st == nil {
+			r.Trivial("C16-NORMAL-FORM", t.name, p.Pos(n.Obj().Pos()), "not a struct: the whole value is its text")
+			continue
+		}
+		inPkg := func(fs []*ssa.Function) map[*ssa.Function]bool {
+			out := map[*ssa.Function]bool{}
+			var add func(f *ssa.Function, d int)
+			add = func(f *ssa.Function, d int) {
+				if f == nil || out[f] || d > 3 || !p.InModule(f) || f.Pkg != pf.Pkg {
+					return
+				}
+				out[f] = true
+				for _, g := range p.Callees(f, nil) {
+					add(g, d+1)
+				}
+			}
+			for _, f := range fs {
+				add(f, 0)
+			}
+			return out
+		}
+		parsers := inPkg([]*ssa.Function{pf})
+		marshals := inPkg([]*ssa.Function{mf})
+		for i := 0; i < st.NumFields(); i++ {
+			fld := st.Field(i)
+			if _, isTP := fld.Type().(*types.TypeParam); isTP {
+				continue
+			}
+			sameT := func(x types.Type) bool { return types.Identical(x, fld.Type()) }
+			// a T->T transform: static callee, one result of the field's type, some operand of the field's type
+			transform := func(v ssa.Value) (string, bool) {
+				c, ok := v.(*ssa.Call)
+				if !ok || !sameT(c.Type()) {
+					return "", false
+				}
+				hasOperand := false
+				for _, a := range c.Call.Args {
+					if sameT(a.Type()) {
+						hasOperand = true
+					}
+				}
+				if !hasOperand {
+					return "", false
+				}
+				if g := core.StaticCallee(c.Common()); g != nil {
+					return core.CalleeName(c.Common()), true
+				}
+				return "<function value>", true
+			}
+			normalisers := func(v ssa.Value) map[string]bool {
+				out := map[string]bool{}
+				core.BackSlice(v, func(x ssa.Value) bool {
+					if f2, _ := core.FieldRead(x); core.SameField(f2, fld) {
+						out["<copy of another address>"] = true
+						return false
+					}
+					if name, ok := transform(x); ok {
+						out[name] = true
+					}
+					return true
+				})
+				return out
+			}
+			P := map[string]bool{}
+			type prod struct {
+				fn *ssa.Function
+				st *ssa.Store
+				N  map[string]bool
+			}
+			var others []prod
+			for _, fn := range p.ModFuncs {
+				if strings.Contains(fn.String(), "test") {
+					continue
+				}
+				for _, s := range core.StoresToField(fn, fld) {
+					N := normalisers(s.Val)
+					if parsers[fn] {
+						for k := range N {
+							if k != "<copy of another address>" {
+								P[k] = true
+							}
+						}
+					} else {
+						others = append(others, prod{fn, s, N})
+					}
+				}
+			}
+			// marshal side: transforms applied to the field's value before it is encoded
+			for fn := range marshals {
+				for _, in := range core.AllInstrs(fn) {
+					v, ok := in.(ssa.Value)
+					if !ok {
+						continue
+					}
+					if name, ok := transform(v); ok && core.DerivesFrom(v, func(x ssa.Value) bool {
+						f2, _ := core.FieldRead(x)
+						return core.SameField(f2, fld)
+					}) {
+						P[name] = true
+					}
+				}
+			}
+			c := t.name + "." + fld.Name()
+			if len(P) == 0 {
+				r.OK("C16-NORMAL-FORM", c, p.Pos(fld.Pos()), "parser and marshaller use the field's value as decoded/stored: no normalisation that other producers would have to share")
+				continue
+			}
+			var need []string
+			for k := range P {
+				need = append(need, k)
+			}
+			sort.Strings(need)
+			okAll := true
+			for _, q := range others {
+				if q.N["<copy of another address>"] && len(q.N) == 1 {
+					continue
+				}
+				for _, k := range need {
+					if !q.N[k] {
+						okAll = false
+						r.Violation("C16-NORMAL-FORM", c+" producer "+core.FnName(q.fn), p.Pos(q.st.Pos()), "the parser/marshaller of "+t.name+" normalises "+fld.Name()+" with "+k+", but this producer stores the field without it: an address it produces (handed out by the swarm) parses back to a different value")
+					}
+				}
+			}
+			if okAll {
+				r.OK("C16-NORMAL-FORM", c, p.Pos(fld.Pos()), "every producer applies the normalisation(s) "+strings.Join(need, ", "))
+			}
+		}
+	}
+
 	// a two-level nesting: multiswarm over quicswarm over udpswarm
 	if l, ok := leaf["quic[udp]"]; ok {
 		t := typesTab[5]
